@@ -16,10 +16,11 @@ EXTENDS Tables
 
 CONSTANTS L, WSBYTES     \* maximal input length; extra bytes added to every alphabet (whitespace, an unknown byte)
 
-VARIABLES g, inp, opt, stack, sstack, vals, nodes, it, endIt, cur, line, col, mode, ph, status, msgs, red, mxd, ev
-vars == <<g, inp, opt, stack, sstack, vals, nodes, it, endIt, cur, line, col, mode, ph, status, msgs, red, mxd, ev>>
+VARIABLES g, inp, opt, stack, sstack, vals, nodes, it, endIt, cur, line, col, mode, ph, status, msgs, red, mxd, lexev, ev
+vars == <<g, inp, opt, stack, sstack, vals, nodes, it, endIt, cur, line, col, mode, ph, status, msgs, red, mxd, lexev, ev>>
 
-D == INSTANCE Driver WITH RCell <- SpecCell, SCell <- SpecCell, LexAt <- LexDispatch, GR <- GRof
+NoLexLines(gg, bytes, p, ln, cl, vb) == <<>>
+D == INSTANCE Driver WITH RCell <- SpecCell, SCell <- SpecCell, LexAt <- LexDispatch, GR <- GRof, LexLines <- NoLexLines
 
 RECURSIVE Strings(_, _)
 Strings(S, n) == IF n = 0 THEN {<<>>} ELSE LET P == Strings(S, n - 1) IN P \cup {Append(s, b) : s \in {q \in P : Len(q) = n - 1}, b \in S}
